@@ -526,12 +526,22 @@ func clip(s string) string {
 }
 
 // c17Block handles one block: sibling statements, literals, colour switches; recurses.
+type bothItem struct {
+	key           string
+	pos           token.Pos
+	str, mir      string
+	what          string
+	isCond        bool
+	body, bodyMir string
+}
+
 func c17Block(c *Ctx, p *Prog, pk *packages.Package, rule string, m *mirrorer, fn string, blk *ast.BlockStmt) (pairs, lits, cases, self int) {
 	type st struct {
 		s   ast.Stmt
 		str string
 	}
 	var ws, bs []st
+	var both []bothItem
 	ord := 0
 	for _, s := range blk.List {
 		// literals assigned in this statement
@@ -613,7 +623,14 @@ func c17Block(c *Ctx, p *Prog, pk *packages.Package, rule string, m *mirrorer, f
 				ord++
 				self++
 				mir, str := m.render(cond, true), m.render(cond, false)
-				c.Check(mir == str, rule, fmt.Sprintf("%s#both-colours@%d", fn, ord), cond.Pos(), "a condition mentioning both colours is unchanged by swapping them (mirror: %s ; as written: %s)", clip(mir), clip(str))
+				it := bothItem{key: fmt.Sprintf("%s#both-colours@%d", fn, ord), pos: cond.Pos(), str: str, mir: mir, what: "condition", isCond: true}
+				if ifs, ok := s.(*ast.IfStmt); ok && ifs.Else == nil && len(ifs.Body.List) == 1 {
+					if bs, simple := m.stmtString(ifs.Body.List[0], false); simple {
+						bm, _ := m.stmtString(ifs.Body.List[0], true)
+						it.body, it.bodyMir = bs, bm
+					}
+				}
+				both = append(both, it)
 			}
 		}
 		// recurse into nested blocks
@@ -652,8 +669,40 @@ func c17Block(c *Ctx, p *Prog, pk *packages.Package, rule string, m *mirrorer, f
 			ord++
 			mir, _ := m.stmtString(s, true)
 			self++
-			c.Check(mir == str, rule, fmt.Sprintf("%s#both-colours@%d", fn, ord), s.Pos(), "a statement mentioning both colours is unchanged by swapping them (mirror: %s ; as written: %s)", clip(mir), clip(str))
+			both = append(both, bothItem{key: fmt.Sprintf("%s#both-colours@%d", fn, ord), pos: s.Pos(), str: str, mir: mir, what: "statement"})
 		}
+	}
+	// both-colour conditions and statements: each is its own mirror image, or two of them in this block are each
+	// other's mirror image in a combination that is symmetric as a whole:
+	//   if C { return true } … return C'          (C' = mirror of C: the result is C || C')
+	//   if C { S } … if C' { S' }                 (S' = mirror of S)
+	paired := make([]bool, len(both))
+	for i := range both {
+		a := both[i]
+		if a.mir == a.str || paired[i] || !a.isCond || a.body == "" {
+			continue
+		}
+		for j := range both {
+			b := both[j]
+			if j == i || paired[j] || b.mir == b.str {
+				continue
+			}
+			if !b.isCond && a.body == "return true" && b.str == "return "+a.mir {
+				paired[i], paired[j] = true, true
+				break
+			}
+			if b.isCond && b.body != "" && b.str == a.mir && b.body == a.bodyMir {
+				paired[i], paired[j] = true, true
+				break
+			}
+		}
+	}
+	for i, it := range both {
+		if paired[i] {
+			c.Ok(rule, it.key, it.pos, "a %s mentioning both colours has a sibling in the same block that is its mirror image, the two combined symmetrically (%s)", it.what, clip(it.str))
+			continue
+		}
+		c.Check(it.mir == it.str, rule, it.key, it.pos, "a %s mentioning both colours is unchanged by swapping them (mirror: %s ; as written: %s)", it.what, clip(it.mir), clip(it.str))
 	}
 	// match W statements with B statements by mirror equality
 	used := make([]bool, len(bs))
